@@ -350,6 +350,10 @@ package client
 //@   opt partial = 1
 //@   loop 0 invariant nrecv(handshakeComplete) > old(nrecv(handshakeComplete))
 //@   assert queued_after_handshake at call Serialize : [C18] nrecv(handshakeComplete) > old(nrecv(handshakeComplete))
+// a request is reported as sent (nil on its response channel) when Serialize returned nil - which
+// means "written" only because Serialize writes to the connection itself, not to a buffer whose
+// flush may fail afterwards
+//@   assert written_to_the_connection_itself at call Serialize : [C18] ival(arg1) == ival(conn)
 
 // Every connection starts unauthenticated, with its own handshake gate: the flags are reset and
 // the handshake-complete channel is one made for this connection (a token left in the channel
